@@ -9,6 +9,30 @@ func (g *gen) stream9(name string, n int) bool {
 			iters := 400 / workers
 			g.emit("AGCONC %d %d %d %d", workers, iters, 1+g.r.intn(4), g.r.intn(1<<30))
 		}
+	case "client-conc":
+		for i := 0; i < n; i++ {
+			g.caseMark("client-conc", i)
+			g.emit("CL new %d %d %d %d %d %d", 50+g.r.intn(200), g.r.intn(9), g.r.intn(2), g.r.intn(2), b2i(g.r.chance(1, 8)), b2i(g.r.chance(1, 8)))
+			hn := 1
+			for k := g.r.intn(4); k > 0; k-- {
+				id := g.r.bytes(12)
+				g.emit("CL start %s %s %d", showHex(id), showHex(reqFor(id, 24+g.r.intn(60), byte(k))), hn)
+				hn++
+				if g.r.chance(1, 2) {
+					g.emit("CL deliver %s", showHex(respFor(id, k)))
+				}
+			}
+			if g.r.chance(1, 10) {
+				g.emit("CL close")
+			}
+			g.emit("CL conc %d %d", []int{2, 3, 4, 8, 16}[g.r.intn(5)], g.r.intn(1<<30))
+			id := g.r.bytes(12)
+			g.emit("CL start %s %s %d", showHex(id), showHex(reqFor(id, 24, 1)), hn)
+			g.emit("CL start %s %s -", showHex(id), showHex(reqFor(id, 20, 0)))
+			g.emit("CL deliver %s", showHex(respFor(id, 1)))
+			g.emit("CL tick %d", 1000000000)
+			g.emit("CL close")
+		}
 	default:
 		return false
 	}
